@@ -1257,6 +1257,90 @@ func (l *log) GC(unusedFor time.Duration) error {""")]),
 """, """func (r *reader) getIndexNow() (indexer, error) {
 	r.lookups.Add(1)
 """)]),
+ ("reader.ConsumeByKey: key-not-found handled in an if chain before the error return", [("log_reader.go", """	positions, err := ix.Keys(keyHash)
+	switch err {
+	case nil:
+		break
+	case index.ErrKeyNotFound:
+		return nextOffset, nil, nil
+	default:
+		return OffsetInvalid, nil, err
+	}
+""", """	positions, err := ix.Keys(keyHash)
+	if err != nil {
+		if errors.Is(err, index.ErrKeyNotFound) {
+			return nextOffset, nil, nil
+		}
+		return OffsetInvalid, nil, err
+	}
+"""), ("log_reader.go", """import (
+""", """import (
+	"errors"
+""")]),
+ ("Log.GetByKey: loop continues explicitly on key-not-found", [("log.go", """		switch msg, err := rdr.GetByKey(key, hash, tctx); err {
+		case nil:
+			return msg, nil
+		case index.ErrKeyNotFound:
+			// not in this segment, try the rest
+		default:
+			return message.Invalid, err
+		}
+	}
+
+	// not in any segment, so just return the error
+	return message.Invalid, errKeyNotFound""", """		msg, err := rdr.GetByKey(key, hash, tctx)
+		if err == index.ErrKeyNotFound {
+			// not in this segment, try the rest
+			continue
+		}
+		if err != nil {
+			return message.Invalid, err
+		}
+		return msg, nil
+	}
+
+	// not in any segment, so just return the error
+	return message.Invalid, errKeyNotFound""")]),
+ ("Open: lock acquisition in a helper", [("log.go", """	lock := flock.New(filepath.Join(dir, ".lock"))
+	if opts.Readonly {
+		switch ok, err := lock.TryRLock(); {
+		case err != nil:
+			return nil, fmt.Errorf("open read lock: %w", err)
+		case !ok:
+			return nil, fmt.Errorf("open already writing locked")
+		}
+	} else {
+		switch ok, err := lock.TryLock(); {
+		case err != nil:
+			return nil, fmt.Errorf("open lock: %w", err)
+		case !ok:
+			return nil, fmt.Errorf("open already locked")
+		}
+	}
+	defer func() {""", """	lock := flock.New(filepath.Join(dir, ".lock"))
+	if err := acquire(lock, opts.Readonly); err != nil {
+		return nil, err
+	}
+	defer func() {"""), ("log.go", "func (l *log) Get(offset int64) (message.Message, error) {", """func acquire(lock *flock.Flock, readonly bool) error {
+	if readonly {
+		switch ok, err := lock.TryRLock(); {
+		case err != nil:
+			return fmt.Errorf("open read lock: %w", err)
+		case !ok:
+			return fmt.Errorf("open already writing locked")
+		}
+		return nil
+	}
+	switch ok, err := lock.TryLock(); {
+	case err != nil:
+		return fmt.Errorf("open lock: %w", err)
+	case !ok:
+		return fmt.Errorf("open already locked")
+	}
+	return nil
+}
+
+func (l *log) Get(offset int64) (message.Message, error) {""")]),
 ]
 
 def main():
